@@ -50,7 +50,12 @@ def signature(M, scn, m):
             if o.get("a") == "StartDecode":
                 syn = o.get("syn")
                 break
-    return {"module": M.name, "ty": scn["ty"], "a": op.get("a"), "syn": syn, "reason": m["reason"]}, op
+    sig = {"module": M.name, "ty": scn["ty"], "a": op.get("a"), "syn": syn, "reason": m["reason"]}
+    if "style" in op:
+        sig["style"] = op["style"]
+    elif scn["plan"] and "style" in scn["plan"][0]:
+        sig["style"] = scn["plan"][0]["style"]
+    return sig, op
 
 
 def classify(prop, M, scn, m, known_list, events=()):
@@ -217,12 +222,17 @@ def check_C05(tier, seed):
                         rule="for every (type, value) of the universe and the restartable binary syntaxes (BER, OER): quick = every 2-chunk split point of the reference encoding (every proper prefix incl. the empty one); thorough = every chunking of encodings up to 6 octets and octet-wise feeding of all; each decoder call is one trace event judged by Codec!DecodeCall")
 
 
+def check_C03(tier, seed):
+    return codec_family("C03", tier, seed, "variants",
+                        rule="for every (type, value) of the universe: the BER variants of spec/Variants.tla (16 styles: padded long-form lengths, indefinite lengths at all / odd / even depths, constructed and nested constructed strings, reversed SET order, DEFAULT values present, TRUE = 01, unknown primitive / constructed extension additions), BASIC-PER/OER defaults-present and unknown-extension forms, XER layouts (LF, CR LF TAB, comments, empty-element tags, defaults present); each is decoded one-shot and must give RC_OK, full length consumed, the value, and the canonical DER re-encoding")
+
+
 def check_C01(tier, seed):
     return codec_family("C01", tier, seed, "rt" if tier == "quick" else "chain", exact=False,
                         rule="sessions Build, Encode(s), Decode(s), Compare, Encode(DER) for every syntax s (thorough: all ordered pairs of syntaxes as transcoding chains) over every (type, value) of the universe; distinct = distinct (module, type, value)")
 
 
-CHECKS = {"C01": check_C01, "C02": check_C02, "C05": check_C05}
+CHECKS = {"C01": check_C01, "C02": check_C02, "C03": check_C03, "C05": check_C05}
 
 
 def replay(prop, path):
